@@ -305,7 +305,9 @@ def run_schedule(scn, schedule, record_where=False):
 # the oracle (search half)
 
 def judge(scn, schedule, run, obs):
-    case = {'kind': 'sched', 'scenario': scn, 'schedule': schedule}
+    # `observable`: the failure is one of the property's own clauses (deadlock, wrong template,
+    # broken structure); shrinking keeps it that way
+    case = {'kind': 'sched', 'scenario': scn, 'schedule': schedule, 'observable': True}
 
     def bad(what, expected, observed):
         return {'case': case, 'what': what, 'expected': expected, 'observed': observed}
@@ -340,9 +342,6 @@ def judge(scn, schedule, run, obs):
             if obs_val != exp:
                 return bad('thread %d: load(%s) returns a correct template for the name it asked for' % (tid, tname(b)),
                            list(exp), list(obs_val))
-    if obs.unlocked:
-        return bad('every cache operation happens with the loader lock held', 'lock owned',
-                   'cache.%s(%s) by thread %s without the lock' % obs.unlocked[0])
     cache = obs.loader._cache
     broken = G.structure_ok(cache)
     if broken:
@@ -350,6 +349,14 @@ def judge(scn, schedule, run, obs):
     lk = obs.loader._lock
     if lk.depth != 0 or lk.owner is not None:
         return bad('the lock is free at the end', 'depth 0', 'depth %d owner %r' % (lk.depth, lk.owner))
+    if obs.unlocked:
+        # nothing observable went wrong under this schedule, but the cache was touched by a thread
+        # that did not hold the loader lock (asserted by the instrumented cache subclass)
+        f = bad('every cache operation happens with the loader lock held', 'lock owned',
+                'cache.%s(%s) by thread %s without the lock' % obs.unlocked[0])
+        f['soft'] = True
+        f['case'] = dict(case, observable=False)
+        return f
     return None
 
 
@@ -477,6 +484,7 @@ def explore_shard(arg):
     lines, expect, cases = [], [], []
     lru_lines, lru_expect = [], []
     stop = [False]
+    soft = []
 
     def make_run(schedule):
         return run_schedule(scn, schedule)
@@ -496,6 +504,10 @@ def explore_shard(arg):
                 snap = None
         f = judge(scn, list(schedule), run, obs)
         if f:
+            if f.get('soft'):
+                # keep looking for a schedule under which something observable goes wrong
+                soft.append(f)
+                return len(soft) > 400
             res.failures.append(f)
             stop[0] = len(res.failures) >= 3
             return stop[0]
@@ -547,6 +559,7 @@ def explore_shard(arg):
                 on_run(schedule, run, obs)
     finally:
         cleanup()
+    res.failures.extend(soft[:1])
     if lines:
         answers = proto.run_lines(lines)
         for sch, ans, exp in zip(cases, answers, expect):
@@ -600,6 +613,7 @@ def run(ctx):
     args, infos = shards(ctx, scns)
     for r in pmap('harness.props.c16', 'explore_shard', args):
         res.merge(r)
+    res.failures.sort(key=lambda f: 1 if f.get('soft') else 0)
     inner = 0
     for scn, info in zip(scns, infos):
         res.count('yield-points:' + scn['name'], info['steps'])
@@ -638,6 +652,9 @@ def replay(ctx, case):
     schedule = [[int(s), int(t)] for s, t in case['schedule']]
     try:
         run, obs = run_schedule(scn, schedule)
-        return judge(scn, schedule, run, obs)
+        f = judge(scn, schedule, run, obs)
+        if f and f.get('soft') and case.get('observable'):
+            return None
+        return f
     finally:
         cleanup()
